@@ -205,3 +205,35 @@ def run(ctx):
     te = src(ev)
     ok = "pending_expr = map_nested_value(eval_term, expr)" in te and "iter_nested_value(pending_expr)" in te and "map_nested_value(resolve_term, pending_expr)" in te
     r3.check(ok, f"{sm.rel}:Scheduler.evaluate", "evaluate does not start, collect and resolve the promises of one and the same mapped structure", sm.rel, ev.lineno)
+
+    # ---- C19.5 whatever a lazy operator returns is evaluated again, whatever its type ----------------
+    # `call`, getattr/getitem on user objects and user __call__s can return *containers of expressions* (plan.jobs() -> [task(1), task(2)]).
+    # The SimpleExpression arm of _evaluate_apply must hand the operator's result to self.evaluate() on every path; a shortcut that re-evaluates
+    # only when the result is itself an Expression lets a job resolve to a value that still contains unevaluated expressions.
+    r5 = ctx.rule("C19.5", "the result of a lazy operator is passed to Scheduler.evaluate on every path", floor=1)
+    ea = sm.func("Scheduler._evaluate_apply")
+    arm = next((n for n in ast.walk(ea) if isinstance(n, ast.If) and "isinstance(expr, SimpleExpression)" in src(n.test)), None)
+    if arm is None:
+        raise AnalysisError("_evaluate_apply: SimpleExpression arm not found", "Scheduler._evaluate_apply")
+    callbacks = []
+    for c in ast.walk(ast.Module(body=arm.body, type_ignores=[])):
+        if isinstance(c, ast.Call) and isinstance(c.func, ast.Attribute) and c.func.attr == "then" and "args_promise" in src(c.func.value) and c.args:
+            cb = c.args[0]
+            if isinstance(cb, ast.Lambda):
+                callbacks.append(("lambda", cb, [cb.body]))
+            elif isinstance(cb, ast.Name):
+                fn = next((f for f in ast.walk(arm) if isinstance(f, ast.FunctionDef) and f.name == cb.id), None)
+                if fn is not None:
+                    callbacks.append((cb.id, fn, [r.value for r in ast.walk(fn) if isinstance(r, ast.Return) and r.value is not None]))
+    if not callbacks:
+        raise AnalysisError("_evaluate_apply: the continuation applied to the evaluated operands was not found", "Scheduler._evaluate_apply")
+    for name, node, rets in callbacks:
+        bad = [src(v) for v in rets if not (isinstance(v, ast.Call) and call_name(v) == "self.evaluate")]
+        r5.check(
+            bool(rets) and not bad,
+            f"{sm.rel}:Scheduler._evaluate_apply:SimpleExpression:result-evaluated",
+            f"the continuation of a lazy operation returns `{bad[0][:60] if bad else ''}` without passing it to self.evaluate(): when the operator returns a container of expressions (a lazy call of "
+            "a plain callable returning [task(1), task(2)]) the enclosing job resolves to a value that still holds TaskExpression leaves",
+            sm.rel,
+            node.lineno,
+        )
